@@ -219,12 +219,32 @@ async def apred(p):
     return pred(p)
 
 
+def pred_none(p):
+    # the same condition written the way applications often do: a value
+    # when satisfied, nothing (None) otherwise
+    if pred(p):
+        return p['username']
+
+
+async def apred_zero(p):
+    return 1 if pred(p) else 0
+
+
+def pred_empty(p):
+    return [p] if pred(p) else []
+
+
 AUTHS = {
     'off': (False, {'k': 'off'}),
     'dict': (dict(D1), None),
     'list': ([dict(D1), dict(D2)], None),
     'pred': (pred, {'k': 'pred'}),
     'apred': (apred, {'k': 'apred'}),
+    # the same predicate, answering with truthy / falsy values that are not
+    # True / False (a predicate is satisfied or it is not)
+    'pred_none': (pred_none, {'k': 'pred'}),
+    'pred_empty': (pred_empty, {'k': 'pred'}),
+    'apred_zero': (apred_zero, {'k': 'apred'}),
 }
 
 
@@ -371,11 +391,12 @@ def build_cases(seed, tier):
     extra = mutations(rng, 10 if tier == 'quick' else 200)
     for side, is_async in (('Server', False), ('AsyncServer', True)):
         for name in AUTHS:
-            if name == 'apred' and not is_async:
+            if name.startswith('apred') and not is_async:
                 continue
             for p in SPEC_PAYLOADS + extra:
                 obs = one_case(name, p, is_async, loop)
                 obs.update({'side': side, 'auth': enc_auth(name),
+                            'flavour': name,
                             'payload': enc_payload(p)})
                 cases.append(obs)
     return cases
